@@ -99,6 +99,57 @@ def field_mentions(facts, adt, fidx, skip_aggregates=True):
     return out
 
 
+def container_mutations(facts, adt, fidx, exclude_fns=(), allowed_suffixes=("::push", "::push_back", "::reserve", "::reserve_exact", "::shrink_to_fit", "::extend", "::extend_one")):
+    """Uses of `&mut <adt>.field#fidx` (the guards container) outside `exclude_fns` that are not a plain append:
+    (fn path, callee or 'assignment', line). Removing, reordering or replacing elements of the container outside the
+    teardown drops a restore guard out of order."""
+    out = []
+    for b in facts.fn_bodies():
+        if b["path"] in exclude_fns:
+            continue
+
+        def is_container(pl):
+            ty = b["locals"][pl["l"]]["ty"]
+            hit = False
+            for pe in pl["p"]:
+                if pe["k"] == "deref":
+                    ty = ty.get("inner") if ty else None
+                elif pe["k"] == "field":
+                    hit = bool(ty and ty.get("k") == "adt" and ty.get("path") == adt and pe["i"] == fidx)
+                    ty = pe["ty"]
+                else:
+                    ty = None
+                    hit = False
+            return hit
+
+        borrowed = {}
+        for blk in b["blocks"]:
+            for st in blk["stmts"]:
+                if st["k"] != "assign":
+                    continue
+                rv = st["rv"]
+                if rv["k"] in ("ref", "rawptr") and rv.get("mut") and is_container(rv["place"]) and not st["place"]["p"]:
+                    borrowed[st["place"]["l"]] = st
+                elif rv["k"] == "use" and rv["op"].get("k") in ("move", "copy") and not rv["op"]["place"]["p"] and rv["op"]["place"]["l"] in borrowed and not st["place"]["p"]:
+                    borrowed[st["place"]["l"]] = st
+                elif rv["k"] in ("ref", "rawptr") and rv.get("mut") and rv["place"]["p"] and rv["place"]["p"][-1]["k"] == "deref" and rv["place"]["l"] in borrowed and len(rv["place"]["p"]) == 1:
+                    borrowed[st["place"]["l"]] = st          # reborrow &mut *x
+                if is_container(st["place"]):
+                    out.append((b["path"], "assignment", st["span"]["line"] if st.get("span") else 0))
+        for blk in b["blocks"]:
+            t = blk["term"]
+            if t["k"] == "call":
+                for o in t["args"]:
+                    if o.get("k") in ("move", "copy") and not o["place"]["p"] and o["place"]["l"] in borrowed:
+                        c = t["callee"]
+                        name = (c.get("resolved") or c)["path"] if c["k"] == "def" else "<indirect>"
+                        if not any(name.endswith(sfx) for sfx in allowed_suffixes):
+                            out.append((b["path"], name, t["span"]["line"] if t.get("span") else 0))
+            if t["k"] == "drop" and is_container(t["place"]):
+                out.append((b["path"], "drop", 0))
+    return out
+
+
 def static_write_sites(facts):
     """(fn path, kind, name, term/stmt) for every raw write construct in the crate's MIR."""
     out = []
